@@ -100,6 +100,9 @@ def run(pid, tier):
     rnd = os.path.join(d, "rnd.ndjson")
     if vlib.record(V, ["fx", "record", "--seed", seed, "--n", 300 if quick else 6000, "--out", rnd]):
         traces.append(rnd)
+    rt = vlib.repo_test_traces()              # FX histories recorded from the repository's own tests
+    if vlib.count_lines(rt["fx"]):
+        traces.insert(0, rt["fx"])
     hist, steps = validate(pid, traces, tag, V, shards=6 if quick else 12)
     bind = binding_demo(pid, traces[-1], d, tag) if traces and not V.viol else {"skipped": "violations were found"}
     sample = []
@@ -109,7 +112,7 @@ def run(pid, tier):
             if len(h["ev"]) >= 3:
                 sample.append({"history": h["key"], "ops": [{"op": e["op"], "o": e["o"], "quotes": [q["l"] + q["r"] for q in e.get("quotes", [])], "order": e.get("order")} for e in h["ev"]][:8]})
                 break
-    cov = dict(states=mc["distinct"] + live.get("distinct", 0), transitions=mc["generated"] + live.get("generated", 0), depth=mc.get("depth"),
+    cov = dict(repo_test_events=rt["events"], states=mc["distinct"] + live.get("distinct", 0), transitions=mc["generated"] + live.get("generated", 0), depth=mc.get("depth"),
                action_coverage=coverage_summary(mc["out"]), liveness_checked="AlwaysResolves under WF(SolveStep)",
                traces_validated_against_impl=hist, evaluations=steps, distinct_nontrivial=hist,
                rule="one trace = one history of a real FXRates object (construction then up to 12 update / refused-update / set_ad_order operations), validated step by step; generated family = every quote sequence of the model (all bases, consistent and mixed settlement) with seeded rates spanning 1e-3..1e3, random family = chains, stars, caterpillars and random trees on 2..12 currencies, random orientation / order / base, 20% of quotes supplied as dual numbers with their own variables, plus degenerate sets",
